@@ -74,7 +74,8 @@ def fuzz(ck, cfgname, prop_sig_prefix, seeds, quick):
     rng = random.Random(ck.seed)
     lines, owners = [], []
     jobs = []
-    for vt, caps in (("uint8_t", [2, 4, 8, 16, 32, 64, 128]), ("uint16_t", [4, 64, 256, 1024])):
+    # requested capacities: powers of two and values the constructor has to round up (the queue works with the rounded one)
+    for vt, caps in (("uint8_t", [2, 4, 8, 16, 32, 64, 128, 3, 6, 12, 24, 100]), ("uint16_t", [4, 64, 256, 1024, 5, 100, 1000, 3000])):
         exe = spsc.build(vt)
         for cap in caps:
             for pct in (0, 5, 25, 50, 100):
